@@ -1,6 +1,7 @@
 package c08
 
 import (
+	"bytes"
 	"context"
 	"encoding/base64"
 	"fmt"
@@ -267,6 +268,14 @@ func check(c *pbt.Ctx, cs Case) {
 	cv := p2j.NewBinaryConv(conv.Options{Int642String: cs.Int642Str, DisallowUnknownField: cs.Disallow})
 	src := append(make([]byte, 0, len(in)+16), in...)
 	var out []byte
+	if cs.Unknown&3 == 3 && len(in) > 2 {
+		// a conversion of a truncated message first: what it leaves behind in pooled state must not matter
+		c.Step("p2j of a truncated message first")
+		c.Protect("", func() {
+			_, _ = cv.Do(context.Background(), desc, append(make([]byte, 0, len(in)+16), in[:len(in)/2]...))
+		})
+		c.Class("after-rejected-conversion")
+	}
 	c.Step("p2j")
 	if cs.IntoBuf {
 		buf := make([]byte, 0, cs.BufCap)
@@ -308,6 +317,18 @@ func check(c *pbt.Ctx, cs Case) {
 	}
 	e.message("$", ref, node)
 
+	// the document stays intact while the converter converts a message of the same shape with other text
+	keep := append([]byte(nil), out...)
+	c.Step("a second p2j on another message; the first document must not change")
+	other := pmodel.Marshal(pmodel.Zap(ref).Interface())
+	c.Protect("", func() { _, _ = cv.Do(context.Background(), desc, append(make([]byte, 0, len(other)+16), other...)) })
+	if !bytes.Equal(out, keep) {
+		c.Failf("result-overwritten", "the document returned by p2j (%d bytes) changed during a later conversion", len(out))
+	}
+	if len(out) > 4096 {
+		c.Class("document>4096")
+	}
+
 	rep, mp, wide := false, false, false
 	ref.Range(func(fd protoreflect.FieldDescriptor, v protoreflect.Value) bool {
 		if fd.IsList() {
@@ -328,7 +349,7 @@ func check(c *pbt.Ctx, cs Case) {
 
 var Prop = pbt.Register(pbt.Prop[Case]{
 	Name: "TestProtoToJSON",
-	Rule: "generated proto3 schema + reference-encoded message (uint64/fixed64 >= 2^63, fixed32/uint32 >= 2^31, negative int32, non-finite floats, every supported map key kind, empty containers), optionally with unknown fields injected at every message level; options Int642String, DisallowUnknownField, Do / DoInto with small buffers; output must be an error or valid JSON (strict reader: no duplicate members, nothing after the value) keyed by JSON names whose values equal the reference-decoded values (big.Int for integers, ParseFloat for floats, base64 for bytes, stringified map keys); non-trivial = a repeated field, a map field and a 64-bit/unsigned field present",
+	Rule: "generated proto3 schema + reference-encoded message (uint64/fixed64 >= 2^63, fixed32/uint32 >= 2^31, negative int32, non-finite floats, every supported map key kind, empty containers), optionally with unknown fields injected at every message level; options Int642String, DisallowUnknownField, Do / DoInto with small buffers, optionally right after a rejected conversion of the truncated message; the returned document must stay intact during a second conversion of a same-shaped message with other text; output must be an error or valid JSON (strict reader: no duplicate members, nothing after the value) keyed by JSON names whose values equal the reference-decoded values (big.Int for integers, ParseFloat for floats, base64 for bytes, stringified map keys); non-trivial = a repeated field, a map field and a 64-bit/unsigned field present",
 	Gen: func(t *rapid.T) Case {
 		sc := pmodel.GenSchema(t, pmodel.GenOpts{AllKinds: rapid.IntRange(0, 2).Draw(t, "allKinds") == 0, KeyKinds: pmodel.SupportedKeyKinds})
 		comp, err := pmodel.Compile(sc.Render(), sc.Main)
